@@ -51,7 +51,7 @@ func exitSites(p *packages.Package, body *ast.BlockStmt) []exitSite {
 			if obj == nil {
 				obj = info.Uses[id]
 			}
-			if obj != nil && types.Identical(obj.Type(), errType) {
+			if obj != nil && (types.Identical(obj.Type(), errType) || len(as.Lhs) == 1) {
 				lastCall[obj] = call
 			}
 		}
@@ -83,6 +83,14 @@ func exitSites(p *packages.Package, body *ast.BlockStmt) []exitSite {
 					if id, ok := call.Fun.(*ast.Ident); ok && id.Name == "len" && len(call.Args) == 1 {
 						if inner, ok := ast.Unparen(call.Args[0]).(*ast.CallExpr); ok && isCallTo(info, inner, "flag", "", "Args") {
 							return "argcount", nil
+						}
+						// args := flag.Args(); … len(args)
+						if id, ok := ast.Unparen(call.Args[0]).(*ast.Ident); ok {
+							if obj := info.Uses[id]; obj != nil {
+								if dc := lastCall[obj]; dc != nil && isCallTo(info, dc, "flag", "", "Args") {
+									return "argcount", nil
+								}
+							}
 						}
 						if sel, ok := ast.Unparen(call.Args[0]).(*ast.SelectorExpr); ok {
 							if x, ok := sel.X.(*ast.Ident); ok && x.Name == "os" && sel.Sel.Name == "Args" {
